@@ -302,6 +302,10 @@ def gen_pair_cases(rng, alphas):
                                    '<feFuncB type="identity"/><feFuncA type="table" tableValues="0 0.25 0.5 0.75 1"/></feComponentTransfer>'),
              src='pairs:' + a, out='ra',
              model="(px_component_transfer [TFLinear f1 fzero; TFTable [fzero; f1]; TFIdentity; TFTable [fzero; flit 1 4; flit 1 2; flit 3 4; f1]])"),
+        dict(kind='pairs/saturate1/sRGB', doc=apply_doc(256, n, '<feColorMatrix type="saturate" values="1"/>'),
+             src='pairs:' + a, out='ra', model="(px_color_matrix (CMSaturate f1))"),
+        dict(kind='pairs/hue0/sRGB', doc=apply_doc(256, n, '<feColorMatrix type="hueRotate" values="0"/>'),
+             src='pairs:' + a, out='ra', model="(px_color_matrix (CMHueRotate f1 fzero))"),
         dict(kind='pairsany/luminance/sRGB', doc=apply_doc(256, n, '<feColorMatrix type="luminanceToAlpha"/>'),
              src='pairsany:' + a, out='ra', model="(px_color_matrix CMLuminanceToAlpha)"),
     ]
@@ -1275,6 +1279,7 @@ def run(ctx):
                 ('search_identity_transfer', IMPORTS, "an identity transfer function (linear 1 0 / table 0 1) changes a byte"),
                 ('search_lut_monotone', IMPORTS, "a lookup table is not monotone"),
                 ('search_convolve_valid', IMPORTS, "feConvolveMatrix stores a colour channel above alpha"),
+                ('search_identity_saturate_hue', IMPORTS, "feColorMatrix saturate(1) / hueRotate(0) changes an opaque grey pixel"),
                 ('into_linear_bad', ['Model.Base', 'Model.F32', 'Gen.PixelTables', 'Model.SrgbSpec'], "SRGB_TO_LINEAR_RGB_TABLE entry is not the rounded sRGB transfer function"),
                 ('from_linear_bad', ['Model.Base', 'Model.F32', 'Gen.PixelTables', 'Model.SrgbSpec'], "LINEAR_RGB_TO_SRGB_TABLE entry is not the rounded sRGB transfer function"),
             ]
@@ -1299,6 +1304,15 @@ def run(ctx):
                                   "filter::apply stores r,a=%s" % (text, num(k4 / 4), num(d4 / 4), num(b4 / 4), bool(pv), c0, c0, c0, a0, got),
                                   dict(op='c16-apply', doc=doc, src='pairs:%d' % a0, pixel=c0, lemma=n, witness=nums[:6], failed_files=res['failed']),
                                   found_input=bool(got and got[0] is not None and got[0] > got[1]))
+                elif n == 'search_identity_saturate_hue':
+                    kd, c0 = nums[0], nums[1]
+                    doc = apply_doc(256, 1, '<feColorMatrix type="%s"/>' % ('saturate" values="1' if kd == 0 else 'hueRotate" values="0'))
+                    o = jload(ctx.rvh_batch(binp, 'c16-apply', ["-\t%s\t1,0,0,1,0,0\tpairs:255\tra" % doc])[0])
+                    got = o.get('out', [None] * 512)[2 * c0:2 * c0 + 2]
+                    ctx.violation("%s (C16_identity_%s): model counterexample: the opaque grey pixel %d; the real filter::apply returns r,a=%s"
+                                  % (text, 'saturate1' if kd == 0 else 'hue0', c0, got),
+                                  dict(op='c16-apply', doc=doc, src='pairs:255', pixel=c0, lemma=n, witness=nums[:2], failed_files=res['failed']),
+                                  found_input=bool(got and got[0] is not None and got[0] != c0))
                 elif n in ('search_mul_valid', 'search_roundtrip'):
                     c0, a0 = nums[0], nums[1]
                     doc = apply_doc(256, 1, '<feColorMatrix type="matrix" values="%s"/>' % IDENT)
